@@ -12,7 +12,7 @@
 import PyTough.Model.T2Data
 import PyTough.Gen.Specs
 import PyTough.Py.Proto
-open Py Model
+open Py Model Model.T2
 
 inductive J where
   | v (x : Val)
